@@ -2148,6 +2148,12 @@ func (ctx Ctx) globalVarDecl(d *ast.GenDecl) []coq.Decl {
 	var specs []coq.Decl
 	for _, spec := range d.Specs {
 		vs := spec.(*ast.ValueSpec)
+		switch t := ctx.typeOf(vs.Names[0]); t.Underlying().(type) {
+		case *types.Pointer, *types.Slice, *types.Map, *types.Chan, *types.Signature, *types.Interface:
+			// the definition is re-evaluated wherever the global is used, so
+			// every use would get a fresh lock, wait group, cell, slice or map
+			ctx.unsupported(vs, "global variable of type %v (globals are translated as constants)", t)
+		}
 		ctx.dep.addName(vs.Names[0].Name)
 		specs = append(specs, ctx.constSpec(vs))
 	}
